@@ -120,7 +120,14 @@ type edState struct {
 	Received    uint64 `json:"received"` // running checksum of everything retrieved
 }
 
+// inexact maps periods that are not a divisor of 10^12 to a real-world frequency whose
+// Period() (the integer the code reports) equals that period.
+var inexact = map[int]timing.Freq{333: 3 * timing.GHz, 1428: 700 * timing.MHz, 833: 1200 * timing.MHz, 416: 2400 * timing.MHz, 571: 1750 * timing.MHz}
+
 func freqOf(periodPs int) timing.Freq {
+	if f, ok := inexact[periodPs]; ok && int(f.Period()) == periodPs {
+		return f
+	}
 	f := timing.Freq(1000000000000 / uint64(periodPs))
 	for uint64(f.Period()) > uint64(periodPs) {
 		f++
@@ -178,7 +185,11 @@ func (c *scomp) activation(now timing.VTimeInPicoSec) bool {
 					if a.Op == "read" {
 						p.Send(memprotocol.ReadReq{MsgMeta: meta, Address: uint64(a.Addr), AccessByteSize: 4})
 					} else {
-						p.Send(memprotocol.WriteReq{MsgMeta: meta, Address: uint64(a.Addr), Data: []byte{byte(k), byte(k >> 8), byte(a.Addr), 0x5a}})
+						data := []byte{byte(k), byte(k >> 8), byte(a.Addr), 0x5a, 1, 2, 3, 4}
+						if a.Addr%3 == 0 {
+							data = make([]byte, 8) // scrub a whole allocation unit to zero
+						}
+						p.Send(memprotocol.WriteReq{MsgMeta: meta, Address: uint64(a.Addr &^ 7), Data: data})
 					}
 					progress = true
 				}
@@ -310,7 +321,16 @@ func buildWith(cfg SysCfg, sim *simulation.Simulation, _ string, muts ...Mut) *s
 			if is("spec", cc.Name) {
 				spec.Latency++
 			}
-			storage := mem.MakeStorageBuilder().WithCapacity(capacity).WithUnitSize(64).WithSimulation(regr).Build(cc.Name + ".Storage")
+			storage := mem.MakeStorageBuilder().WithCapacity(capacity).WithUnitSize(8).WithSimulation(regr).Build(cc.Name + ".Storage")
+			// the assembly pre-loads an image (as setup code of a simulator does); a rebuilt
+			// simulation pre-loads it again before the checkpoint is loaded over it
+			img := make([]byte, 512)
+			for i := range img {
+				img[i] = byte(0xA0 + i%7)
+			}
+			if capacity >= 512 {
+				_ = storage.Write(0, img)
+			}
 			mc := idealmemcontroller.MakeBuilder().WithRegistrar(regr).WithSpec(spec).
 				WithResources(idealmemcontroller.Resources{Storage: storage}).Build(cc.Name)
 			for _, pc := range cc.Ports {
@@ -405,7 +425,7 @@ func RunSystem(cfg SysCfg) (recs []map[string]any, bad []string) {
 	return s.tr.recs, s.bad
 }
 
-var periods = []int{1000, 2000, 3000, 5000, 500}
+var periods = []int{1000, 2000, 3000, 5000, 500, 333, 1428, 833}
 
 // randomSystem draws a topology, capacities, frequencies and scripts.
 func randomSystem(rng *rand.Rand, maxComps, maxMsgs int) SysCfg {
@@ -515,6 +535,46 @@ func collisionSystem(rng *rand.Rand) SysCfg {
 	return cfg
 }
 
+// twoStall: two senders, each back-pressured by its own receiver; the receivers stall for
+// different lengths and later drain on their own wake-ups, so the connection sleeps on two
+// different full destinations and must be woken by whichever drains first.
+func twoStall(rng *rand.Rand) SysCfg {
+	var cfg SysCfg
+	cfg.Conns = []ConnCfg{{Name: "K0", Period: 1000}}
+	mk := func(name string, stall int, script [][]Action, in, out int) CompCfg {
+		return CompCfg{Name: name, Kind: "ed", Period: 1000, Drain: true, Stall: stall, Script: script,
+			Ports: []PortCfg{{Name: name + ".P", In: in, Out: out, Conn: "K0"}}}
+	}
+	burst := func(port, dst string, n int) [][]Action {
+		var sc [][]Action
+		for i := 0; i < n; i++ {
+			sc = append(sc, []Action{{Op: "send", Port: port, Dst: dst}, {Op: "wake", D: 1000}})
+		}
+		return sc
+	}
+	wakes := func(n int, d int) [][]Action {
+		var sc [][]Action
+		for i := 0; i < n; i++ {
+			sc = append(sc, []Action{{Op: "wake", D: d}})
+		}
+		return sc
+	}
+	in := 1 + rng.Intn(2)
+	cfg.Comps = []CompCfg{
+		mk("A", 0, burst("A.P", "X.P", 3+rng.Intn(3)), 1, 1+rng.Intn(2)),
+		mk("B", 0, burst("B.P", "Y.P", 3+rng.Intn(3)), 1, 1+rng.Intn(2)),
+		mk("X", 2+rng.Intn(6), wakes(12, 1000*(1+rng.Intn(3))), in, 1),
+		mk("Y", 2+rng.Intn(6), wakes(12, 1000*(1+rng.Intn(3))), in, 1),
+	}
+	for _, c := range cfg.Comps {
+		cfg.Init = append(cfg.Init, struct {
+			Comp string `json:"comp"`
+			At   int    `json:"at"`
+		}{c.Name, 0})
+	}
+	return cfg
+}
+
 // connStress draws one connection with many ports, deep scripts that keep refilling the
 // outgoing buffers, and receivers that stall for long periods (C10).
 func connStress(rng *rand.Rand, maxMsgs int) SysCfg {
@@ -582,6 +642,7 @@ func init() {
 		}
 		for i := 0; i < in.Stress; i++ {
 			all = append(all, connStress(rng, in.MaxMsgs))
+			all = append(all, twoStall(rng))
 		}
 		f, err := os.Create(in.Out)
 		if err != nil {
